@@ -227,6 +227,14 @@ def run_family(pid: str, tier: str, seed: int, replay=None) -> int:
         lim = {"C01": 500, "C04": 600, "C08": 300}[pid] if quick else 0
         scs += _graph_state_scenarios(states, pid, rng, lim, folds=(False, True) if pid == "C01" else (False,),
                                       costs=(pid == "C04"))
+    # layers invoked twice (weight sharing): states of the reuse grammar that contain a reused layer
+    if pid in ("C04", "C09"):
+        rst = pitgen.dump_states("FeatGraphMC", "FeatGraphMC_reuse", R, workers=16, timeout=3600)
+        rst = [s_ for s_ in rst if any(n["reuse"] for n in s_["arch"]["nodes"])]
+        scs_r = _graph_state_scenarios(rst, pid, rng, 250 if quick else 4000, costs=(pid == "C04"))
+        for sc in scs_r:
+            sc["src"] = "tlc-graph-reuse"
+        scs += scs_r
     # C08 on architectures: all-minimum masks on every enumerated architecture
     if pid == "C08":
         seen = set()
